@@ -128,6 +128,9 @@ def rule_writer_finder(ck: Check, repo: Repo, folder: Folder) -> None:
     # after an existing header (C08-R1 cell) - both re-checked here because they are what makes the second run a no-op
     c08.rule_partition(ck, repo, "R4")
     c08.rule_place_header(ck, repo, "R5")
+    # whether the first run leaves a blank line after the header (existing-header flag = a header block was found) decides
+    # what the second run takes for the header block (shared with C08-R3)
+    c08.rule_shebang(ck, repo, "R8")
 
 
 def rule_finder_predicate(ck: Check, repo: Repo, rid: str = "R6") -> None:
